@@ -20,10 +20,14 @@ import random
 # order (docstrings / signatures of the pinned tree, recorded here).  FORMS["rng"] (set by ./check)
 # chooses, per call, how many leading arguments are passed positionally; None = one fixed form.
 FORMS = {"rng": None}
+FORM_STATS = {}  # "<callable>: k leading arguments positional" -> number of calls (what was actually exercised)
 ORDER = {
     "Link": ("nb_segments", "lanes", "length", "maximum_density", "critical_density", "free_flow_velocity", "a", "turnrate", "name"),
     "MeteredOnRamp": ("capacity", "flow_eq_type", "name"),
     "named": ("name",),
+    "add_node": ("node",),
+    "add_nodes": ("nodes",),
+    "add_links": ("links",),
     "add_link": ("node_up", "link", "node_down"),
     "add_origin": ("origin", "node"),
     "add_destination": ("destination", "node"),
@@ -56,6 +60,8 @@ def callform(fn, order, values, default_k=0, extra=None, rng="default"):
     kw = {n: v for n, v in values.items() if n not in order[:k]}
     if extra:
         kw.update(extra)
+    key = f"{getattr(fn, '__qualname__', getattr(fn, '__name__', '?'))}: {k} positional"
+    FORM_STATS[key] = FORM_STATS.get(key, 0) + 1
     return fn(*args, **kw)
 
 
@@ -105,14 +111,37 @@ def make_objects(M, desc, param_override=None, node_names=None):
         g = lambda a, l=l: po.get((l["id"], a), l[a])  # noqa: E731
         vals = dict(zip(ORDER["Link"], (l["N"], g("lam"), g("L"), g("rho_max"), g("rho_crit"), g("v_free"), g("a"), g("beta"), l["name"])))
         if l.get("vsl") is not None:
+            signs = set(l["vsl"])
+            r_ = FORMS["rng"]
+            if r_ is not None and r_.random() < 0.5:
+                # the signs as a list / tuple the caller keeps (and goes on editing for the next link)
+                signs = list(l["vsl"])
+                r_.shuffle(signs)
+                if r_.random() < 0.3:
+                    signs = tuple(signs)
             links[l["id"]] = callform(M.LinkWithVsl, ORDER["Link"], vals, 8,
-                                      extra={"segments_with_vsl": set(l["vsl"]), "alpha": g("alpha")})
+                                      extra={"segments_with_vsl": signs, "alpha": g("alpha")})
+            if isinstance(signs, list):
+                if r_.random() < 0.5:
+                    signs.clear()
+                else:
+                    signs.append(0)
+                    signs.reverse()
+        elif l.get("user_cap") is not None or l.get("user_reorder"):
+            from vf import userkinds as UK
+
+            links[l["id"]] = callform(UK.WorkZoneLink, ORDER["Link"], vals, 8,
+                                      extra={"capacity": l.get("user_cap"), "reorder": bool(l.get("user_reorder"))})
         else:
             links[l["id"]] = callform(M.Link, ORDER["Link"], vals, 8)
     origins = {}
     for o in desc["origins"]:
         C = po.get((o["id"], "C"), o.get("C"))
-        if o["kind"] == "ideal":
+        if o["kind"] == "ideal" and o.get("user"):
+            from vf import userkinds as UK
+
+            origins[o["id"]] = UK.BoundaryOrigin(flow=o.get("user_q"), speed=o.get("user_v"), name=o["name"])
+        elif o["kind"] == "ideal":
             origins[o["id"]] = callform(M.Origin, ORDER["named"], {"name": o["name"]})
         elif o["kind"] == "main":
             origins[o["id"]] = callform(M.MainstreamOrigin, ORDER["named"], {"name": o["name"]})
